@@ -3,28 +3,29 @@
 # /repo HEAD: patch applies, full suite passes with it, demo passes without and fails with it. On success copy into
 # /verif/seeded/PID-X/. The worktree is removed afterwards.
 PID="$1"; X="$2"
-SRC=/tmp/mut/$PID/out
-WT=/tmp/seedchk/$PID-$X
+SRC=${SEED_SRC:-/tmp/mut}/$PID/out
+NAME=${SEED_NAME:-$PID-$X}
+WT=/tmp/seedchk/$NAME
 rm -rf "$WT"; mkdir -p /tmp/seedchk
 git -C /repo worktree add -f "$WT" HEAD >/dev/null 2>&1 || exit 9
 cd "$WT" || exit 9
 OK=1
-/venv/bin/python "$SRC/$X.demo.py" >/tmp/seedchk/$PID-$X.demo0.log 2>&1; D0=$?
-git apply "$SRC/$X.patch.diff" || { echo "$PID-$X: patch does not apply"; OK=0; }
+/venv/bin/python "$SRC/$X.demo.py" >/tmp/seedchk/$NAME.demo0.log 2>&1; D0=$?
+git apply "$SRC/$X.patch.diff" || { echo "$NAME: patch does not apply"; OK=0; }
 if [ $OK = 1 ]; then
-  /venv/bin/python "$SRC/$X.demo.py" >/tmp/seedchk/$PID-$X.demo1.log 2>&1; D1=$?
-  /venv/bin/python -m pytest -q -p no:cacheprovider --timeout=900 tests >/tmp/seedchk/$PID-$X.tests.log 2>&1; T=$?
-  TL=$(tail -1 /tmp/seedchk/$PID-$X.tests.log)
-  echo "$PID-$X: demo_unpatched=$D0 demo_patched=$D1 tests_rc=$T ($TL)"
+  /venv/bin/python "$SRC/$X.demo.py" >/tmp/seedchk/$NAME.demo1.log 2>&1; D1=$?
+  /venv/bin/python -m pytest -q -p no:cacheprovider --timeout=900 tests >/tmp/seedchk/$NAME.tests.log 2>&1; T=$?
+  TL=$(tail -1 /tmp/seedchk/$NAME.tests.log)
+  echo "$NAME: demo_unpatched=$D0 demo_patched=$D1 tests_rc=$T ($TL)"
   if [ $D0 = 0 ] && [ $D1 != 0 ] && [ $T = 0 ]; then
-    mkdir -p /verif/seeded/$PID-$X
-    cp "$SRC/$X.patch.diff" /verif/seeded/$PID-$X/patch.diff
-    cp "$SRC/$X.demo.py" /verif/seeded/$PID-$X/demo.py
+    mkdir -p /verif/seeded/$NAME
+    cp "$SRC/$X.patch.diff" /verif/seeded/$NAME/patch.diff
+    cp "$SRC/$X.demo.py" /verif/seeded/$NAME/demo.py
     printf '{"confirmed_at_repo_head": "%s", "demo_unpatched_exit": %s, "demo_patched_exit": %s, "test_suite": "%s"}\n' \
-      "$(git -C /repo rev-parse --short HEAD)" "$D0" "$D1" "$TL" > /verif/seeded/$PID-$X/confirm.json
-    echo "$PID-$X: KEPT"
+      "$(git -C /repo rev-parse --short HEAD)" "$D0" "$D1" "$TL" > /verif/seeded/$NAME/confirm.json
+    echo "$NAME: KEPT"
   else
-    echo "$PID-$X: REJECTED"
+    echo "$NAME: REJECTED"
   fi
 fi
 cd /; git -C /repo worktree remove --force "$WT"; git -C /repo worktree prune
